@@ -357,6 +357,7 @@ func xmlVocab(content []*XN) *vocab {
 		nt := NT{Prefix: n.Prefix, Local: n.Local}
 		ch := append(append([]NT(nil), chain...), nt)
 		v.paths = append(v.paths, ch)
+		v.facts = append(v.facts, xmlFacts(n))
 		if !seenN[nt] {
 			seenN[nt] = true
 			v.names = append(v.names, nt)
@@ -377,4 +378,46 @@ func xmlVocab(content []*XN) *vocab {
 		walk(n, nil)
 	}
 	return v
+}
+
+func okValue(s string) bool { return !(strings.Contains(s, "'") && strings.Contains(s, `"`)) }
+
+func (n *XN) innerText() string {
+	if n.IsText {
+		return n.Text
+	}
+	var sb strings.Builder
+	for _, k := range n.Kids {
+		sb.WriteString(k.innerText())
+	}
+	return sb.String()
+}
+
+// xmlFacts lists atomic predicates of the class that hold of element n.
+func xmlFacts(n *XN) []*PExp {
+	var fs []*PExp
+	for _, a := range n.Attrs {
+		if a.Prefix == "xmlns" || a.Local == "xmlns" || !okValue(a.Value) {
+			continue
+		}
+		nm := [2]string{a.Prefix, a.Local}
+		fs = append(fs, &PExp{Op: "attreq", Name: &nm, V: a.Value}, &PExp{Op: "hasattr", Name: &nm})
+	}
+	for _, k := range n.Kids {
+		if k.IsText {
+			if okValue(k.Text) {
+				fs = append(fs, &PExp{Op: "texteq", V: k.Text})
+			}
+			continue
+		}
+		nt := NT{Prefix: k.Prefix, Local: k.Local}
+		if it := k.innerText(); okValue(it) {
+			fs = append(fs, &PExp{Op: "childeq", NT: &nt, V: it})
+		}
+		fs = append(fs, &PExp{Op: "haschild", NT: &nt})
+	}
+	if it := n.innerText(); okValue(it) {
+		fs = append(fs, &PExp{Op: "selfeq", V: it})
+	}
+	return fs
 }
